@@ -281,4 +281,6 @@ pub use self::avx_mixed_radix::{
     MixedRadix9xnAvx,
 };
 pub use self::avx_raders::RadersAvx2;
+#[cfg(rustfft_verif)]
+pub(crate) use self::avx_raders::verif_mul_rem;
 use self::avx_vector::AvxVector256;
